@@ -13,7 +13,7 @@ def gen(rng):
     ur, fr = rng.choice(UNITS[dim])
     return dict(t='modref', dim=dim, ua=ua, ub=ub, ur=ur, x=rng.choice([10, 2.5, 4, 120]), x2=rng.choice([3, 300, 0.5, 7.5]),
                 k=rng.choice([2, 3, 0.5]), lit=rng.choice([1, 20, 0.25]), declared=rng.random() < 0.25, nmods=rng.choice([1, 1, 2]),
-                form=rng.choice(['mul', 'add', 'sub-literal', 'div', 'logical', 'template', 'solver-call']))
+                form=rng.choice(['mul', 'add', 'sub-literal', 'div', 'logical', 'template', 'solver-call']), twice=rng.random() < 0.5)
 
 
 def run(case, ctx, parse_text):
@@ -27,28 +27,43 @@ def run(case, ctx, parse_text):
         L.append('a float = %r %s' % (float(c['x']), c['ua']))
     if c['nmods'] == 2:
         L.append('a = %r %s' % (float(c['x']) * 3, c['ua']))
-    L.append('a = %r %s' % (float(c['x2']), c['ub']))
+    prev_base = float(c['x']) * (3 if c['nmods'] == 2 else 1) * F[c['ua']]
     cur_base = c['x2'] * F[c['ub']]                    # current value of a in base units
     cur_in_ua = cur_base / F[c['ua']]
     form = c['form']
-    exp = None
-    if form == 'mul':
-        L.append('r float = ("%s * {?a}") %s' % (c['k'], c['ur'])); exp = c['k'] * cur_base / F[c['ur']]
-    elif form == 'add':
-        L.append('r float = ("{?a} + %r %s") %s' % (float(c['lit']), c['ua'], c['ur'])); exp = (cur_base + c['lit'] * F[c['ua']]) / F[c['ur']]
-    elif form == 'sub-literal':
-        L.append('r float = ("%r %s - {?a}") %s' % (float(c['lit']), c['ub'], c['ur'])); exp = (c['lit'] * F[c['ub']] - cur_base) / F[c['ur']]
-    elif form == 'div':
-        L.append('r float = ("{?a} / %s") %s' % (c['k'], c['ur'])); exp = cur_base / c['k'] / F[c['ur']]
-    elif form == 'logical':
-        L.append('r bool = ("{?a} == %r %s")' % (float(c['x2']), c['ub'])); exp = True
+
+    def expr(name, base):
+        # the SAME expression text for every name: only the value of a at the place of the line differs
+        if form == 'mul':
+            return ['%s float = ("%s * {?a}") %s' % (name, c['k'], c['ur'])], c['k'] * base / F[c['ur']]
+        if form == 'add':
+            return ['%s float = ("{?a} + %r %s") %s' % (name, float(c['lit']), c['ua'], c['ur'])], (base + c['lit'] * F[c['ua']]) / F[c['ur']]
+        if form == 'sub-literal':
+            return ['%s float = ("%r %s - {?a}") %s' % (name, float(c['lit']), c['ub'], c['ur'])], (c['lit'] * F[c['ub']] - base) / F[c['ur']]
+        if form == 'div':
+            return ['%s float = ("{?a} / %s") %s' % (name, c['k'], c['ur'])], base / c['k'] / F[c['ur']]
+        if form == 'logical':
+            return ['%s bool = ("{?a} == %r %s")' % (name, float(c['x2']), c['ub'])], bool(close(base, cur_base, 1e-9))
+        if form == 'template':
+            return ['%s str = ("a={{?a}:.6e}")' % name], 'a=%s' % format(base / F[c['ua']], '.6e')
+        return [], None
+    exp0 = None
+    twice = bool(c.get('twice')) and form != 'solver-call' and not close(prev_base, cur_base, 1e-6)
+    if twice:
+        l0, exp0 = expr('r0', prev_base)               # the same text BEFORE the last modification
+        L += l0
+    L.append('a = %r %s' % (float(c['x2']), c['ub']))
+    l1, exp = expr('r', cur_base)
+    L += l1
+    if form == 'logical':
         L.append('q bool = ("{?a} == %r %s")' % (float(c['x']) * 1.5 + 1, c['ua']))
-    elif form == 'template':
-        L.append('r str = ("a={{?a}:.6e}")'); exp = 'a=%s' % format(cur_in_ua, '.6e')
     text = '\n'.join(L) + '\n'
     devs = []
     mon = dict(modified_reference_programs=1)
     classes = ['modified-reference', 'modified-reference:' + form] + (['modified-reference:declared-then-assigned'] if c['declared'] else [])
+    if twice:
+        classes.append('modified-reference:same-expression-text-before-and-after')
+        mon['same_expression_text_twice'] = 1
     kind, res = parse_text(ctx, text)
     if kind != 'ok':
         devs.append(dev('modified-reference:valid-program-rejected', dict(text=text, outcome=kind, exc=repr(res)[:200])))
@@ -73,6 +88,11 @@ def run(case, ctx, parse_text):
         devs.append(dev('modified-reference:node-value-itself-differs', dict(text=text, observed=data.get('a'), expected=cur_in_ua)))
     elif not ok:
         devs.append(dev('modified-reference:expression-does-not-use-current-value', dict(text=text, observed=obs, expected=exp)))
+    if twice and not devs:
+        o0 = data.get('r0')
+        ok0 = (o0 is not None and bool(o0) == exp0) if form == 'logical' else (o0 == exp0 if form == 'template' else (o0 is not None and close(o0, exp0, 1e-9)))
+        if not ok0:
+            devs.append(dev('modified-reference:same-expression-before-the-modification-does-not-use-the-value-of-that-place', dict(text=text, observed=o0, expected=exp0)))
     return outcome(classes=classes, nontrivial=True, fp='modref ' + text, dev=devs, monitors=mon, sample=dict(text=text, expected=exp, observed=obs))
 
 
